@@ -652,6 +652,32 @@ class Expander:
         return env
 
     # -- expressions -------------------------------------------------------------------
+    def _positional(self, fname, args, kw):
+        """f(a, q=c, p=b) with `def f(x, p, q)` is f(a, b, c): keyword arguments of a call to a function of the package (module-level
+        or nested in this function) are put into the positions of the signature, so that call style does not matter.  Parameters are
+        filled from the left as far as they are supplied; what cannot be placed stays a keyword."""
+        if not kw or "**" in kw or any(a.op == "star" for a in args):
+            return args, kw
+        node = None
+        ne = self.nested.get(fname)
+        if ne is not None:
+            node = ne.fi.node
+        else:
+            mi = self.repo.mods.get(self.fi.file)
+            r = self.repo.resolve_name(mi, fname) if mi is not None else None
+            if isinstance(r, FuncInfo) and r.cls is None:
+                node = r.node
+        if node is None or node.args.vararg is not None or node.args.posonlyargs:
+            return args, kw
+        names = [a.arg for a in node.args.args]
+        args, kw = list(args), dict(kw)
+        for nm in names[len(args):]:
+            if nm in kw:
+                args.append(kw.pop(nm))
+            else:
+                break
+        return args, kw
+
     def term(self, e: ast.AST, at=None) -> T:
         return self._tr(e)
 
@@ -696,6 +722,7 @@ class Expander:
                 b = self.bind.get(id(f))
                 if b is not None and b.op not in ("free", "localfn"):
                     return T("callv", None, [b] + args, kw, node=e)
+                args, kw = self._positional(f.id, args, kw)
                 return T("call", f.id, args, kw, node=e)
             return T("callv", None, [self._tr(f)] + args, kw, node=e)
         if isinstance(e, ast.BinOp):
